@@ -593,11 +593,15 @@ func ObjectRouting(p *core.Prog, r *core.Report) {
 		}
 	}
 	rt := &router{p: p, recvType: recvT, primitive: map[*ssa.Function]string{matcher: "PATTERNS"}, relevant: func(g *ssa.Function) bool { return interesting[g] }}
+	recorder := p.Func("(*Result).mergeForField")
+	if recorder != nil {
+		rt.primitive[recorder] = "RECORD"
+	}
 	const K, V = "K(arg1)", "V(arg1)"
 	patEvent := "PATTERNS(" + K + "," + V + ")"
 	addEvent := "VALIDATE[recv." + fAdd + ".Schema](" + V + ")"
 	nRuns, nNormal := 0, 0
-	var missPat, missAdd, missForbid, spuriousForbid, aborted []string
+	var missPat, missAdd, missForbid, spuriousForbid, aborted, missRecord []string
 	config := func(run *routeRun) string {
 		var ks []string
 		for a, v := range run.atoms {
@@ -640,6 +644,25 @@ func ObjectRouting(p *core.Prog, r *core.Report) {
 		nNormal++
 		if !has(patEvent) {
 			missPat = append(missPat, config(run))
+		}
+		// what the post-processors go by: a member that a pattern property (not a declared one) or the schema of
+		// additionalProperties describes is recorded for its key — without a record, Prune removes a described member
+		if recorder != nil {
+			rec := has("RECORD(arg1," + K + ")")
+			reg, regK := run.atoms["has(recv."+fProps+","+K+")"]
+			matched, mK := run.atoms["ret0:"+matcher.Name()+"("+K+","+V+")"]
+			infeasible := false
+			for a, v := range run.atoms {
+				if strings.HasPrefix(a, "has(recv.") && strings.Contains(a, "ret2:"+matcher.Name()) && !v {
+					infeasible = true // a pattern the matcher just reported is a key of the pattern properties
+				}
+			}
+			if regK && !reg && mK && matched && !infeasible && !rec {
+				missRecord = append(missRecord, "matched by a pattern property: "+config(run))
+			}
+			if has(addEvent) && !rec {
+				missRecord = append(missRecord, "validated by the additionalProperties schema: "+config(run))
+			}
 		}
 		// additionalProperties as a schema: required for a member that is neither declared nor matched
 		enabled := true
@@ -696,6 +719,13 @@ func ObjectRouting(p *core.Prog, r *core.Report) {
 	r.Count("routing_configurations", nRuns)
 	r.Count("routing_configurations_normal_return", nNormal)
 	r.Floor("routing_configurations_normal_return", 8)
+	if recorder != nil {
+		if len(missRecord) > 0 {
+			r.Bad(rule, "object:member-recorded", p.Pos(entry.Pos()), fmt.Sprintf("a member described by a pattern property or by the schema of additionalProperties is validated but not recorded under its key in %d configuration(s), e.g. %s — Prune removes it although a schema describes it", len(missRecord), missRecord[0]))
+		} else {
+			r.OK(rule, "object:member-recorded", p.Pos(entry.Pos()), "in every configuration a member matched by a pattern property (and not declared) or validated by the additionalProperties schema is recorded under its key")
+		}
+	}
 	if len(aborted) > 0 {
 		r.Unk(rule, "object:enumeration", p.Pos(entry.Pos()), "some runs could not be completed: "+strings.Join(uniq(aborted), "; "))
 	}
@@ -1006,7 +1036,11 @@ func KeywordRouting(p *core.Prog, r *core.Report) {
 		fReq := keywordFieldOf(p, "newObjectValidator", "Required")
 		fProps := keywordFieldOf(p, "newObjectValidator", "Properties")
 		rt := &router{p: p, recvType: core.NamedOf(f.Signature.Recv().Type()), primitive: map[*ssa.Function]string{}, relevant: func(*ssa.Function) bool { return false }}
-		var missing, spurious, unvalidated, aborted []string
+		recorder := p.Func("(*Result).mergeForField")
+		if recorder != nil {
+			rt.primitive[recorder] = "RECORD"
+		}
+		var missing, spurious, unvalidated, unrecorded, aborted []string
 		n := 0
 		total := rt.enumerate(f, []string{"recv", "arg1", "res"}, func(run *routeRun) {
 			if run.abort != "" {
@@ -1047,6 +1081,10 @@ func KeywordRouting(p *core.Prog, r *core.Report) {
 			if v, ok := run.atoms["has(arg1,K(recv."+fProps+"))"]; ok && v && !runHasEvent(run, "VALIDATE[") {
 				unvalidated = append(unvalidated, runConfig(run))
 			}
+			// … and recorded under its own name (what Prune and ApplyDefaults go by)
+			if v, ok := run.atoms["has(arg1,K(recv."+fProps+"))"]; ok && v && recorder != nil && !runHasEvent(run, "RECORD(arg1,K(recv."+fProps+"))") {
+				unrecorded = append(unrecorded, runConfig(run))
+			}
 		})
 		pos := p.Pos(f.Pos())
 		if total > 20000 || len(aborted) > 0 {
@@ -1060,6 +1098,9 @@ func KeywordRouting(p *core.Prog, r *core.Report) {
 		report("required:missing-is-an-error", pos, n, missing, "a required name that is neither a member of the instance nor created from a default raises 'required'", "a missing required member is not reported")
 		report("required:only-then", pos, n, spurious, "'required' is raised only for a name that is absent and not created from a default", "'required' is raised for a member that is present or defaulted")
 		report("properties:present-is-validated", pos, n, unvalidated, "a declared property that is present is validated against its schema", "a declared, present property is not validated")
+		if recorder != nil {
+			report("properties:present-is-recorded", pos, n, unrecorded, "the result of a declared property that is present is recorded under that property's name", "a declared, present property is validated but not recorded under its name (Prune removes it although it is declared)")
+		}
 	}
 	// ---- dependencies ------------------------------------------------------------------
 	if f := p.Func("(*schemaPropsValidator).validateDependencies"); f == nil {
